@@ -447,8 +447,6 @@ func leanList(l []string) string {
 // Facts regenerates lean/XmppModel/Generated/C13.lean: the constant tables of
 // the stanza and stream packages.
 func Facts(repo string) (string, error) {
-	fset := token.NewFileSet()
-	parse := func(rel string) (*ast.File, error) { return parser.ParseFile(fset, filepath.Join(repo, rel), nil, 0) }
 	var sb strings.Builder
 	sb.WriteString("-- GENERATED by `harness facts C13` from stanza/*.go and stream/*.go; do not edit.\nnamespace XmppModel.Generated.C13\n\n")
 	stz, err := checkPkg(filepath.Join(repo, "stanza"))
@@ -478,44 +476,23 @@ func Facts(repo string) (string, error) {
 			fmt.Fprintf(&sb, "def %s : Option String := none\n", e.name)
 		}
 	}
-	// the struct tags of the three stanza types (the model of the struct-tag path is written for these)
+	// the struct tags of the three stanza types (the model of the struct-tag path is written for
+	// these): read by REFLECTION from the linked package (round F) — what encoding/xml itself sees:
+	// field order, field type, xml tag; independent of files, syntax and (unexported) helper types.
+	// Field names are left out: with a tag that names the attribute they do not influence the encoding.
 	var tl []string
-	for _, e := range [][2]string{{"IQ", "stanza/iq.go"}, {"Message", "stanza/message.go"}, {"Presence", "stanza/presence.go"}} {
-		f, err := parse(e[1])
-		if err != nil {
-			return "", err
-		}
+	for _, e := range []struct {
+		name string
+		t    reflect.Type
+	}{{"IQ", reflect.TypeOf(stanza.IQ{})}, {"Message", reflect.TypeOf(stanza.Message{})}, {"Presence", reflect.TypeOf(stanza.Presence{})}} {
 		var fl []string
-		ast.Inspect(f, func(n ast.Node) bool {
-			ts, ok := n.(*ast.TypeSpec)
-			if !ok || ts.Name.Name != e[0] {
-				return true
-			}
-			if st, ok := ts.Type.(*ast.StructType); ok {
-				for _, fd := range st.Fields.List {
-					tag := ""
-					if fd.Tag != nil {
-						if t, err := strconv.Unquote(fd.Tag.Value); err == nil {
-							tag = reflect.StructTag(t).Get("xml")
-						}
-					}
-					typ := ""
-					switch t := fd.Type.(type) {
-					case *ast.Ident:
-						typ = t.Name
-					case *ast.SelectorExpr:
-						typ = t.Sel.Name
-					}
-					for _, nm := range fd.Names {
-						fl = append(fl, fmt.Sprintf("(%q, %q, %q)", nm.Name, typ, tag))
-					}
-				}
-			}
-			return false
-		})
-		tl = append(tl, fmt.Sprintf("(%q, [%s])", e[0], strings.Join(fl, ", ")))
+		for k := 0; k < e.t.NumField(); k++ {
+			fd := e.t.Field(k)
+			fl = append(fl, fmt.Sprintf("(%q, %q)", fd.Type.Name(), fd.Tag.Get("xml")))
+		}
+		tl = append(tl, fmt.Sprintf("(%q, [%s])", e.name, strings.Join(fl, ", ")))
 	}
-	fmt.Fprintf(&sb, "def stanzaTags : Option (List (String × List (String × String × String))) := some [\n  %s]\n", strings.Join(tl, ",\n  "))
+	fmt.Fprintf(&sb, "def stanzaTags : Option (List (String × List (String × String))) := some [\n  %s]\n", strings.Join(tl, ",\n  "))
 	// package-level variables of internal/marshal (the conversion behind every reader that is made
 	// from a struct value): state shared between two conversions
 	if mg, err := c05.PackageVars(filepath.Join(repo, "internal", "marshal")); err != nil {
